@@ -116,11 +116,11 @@ def main():
         "version": 1,
         "setup_cmd": "make -C /verif",
         "hooks": {"guard": "RWEATHER_SKINNY_C_VERIF",
-                  "enable": "checks compile /repo/src units to LLVM IR with -DRWEATHER_SKINNY_C_VERIF -DSKINNY_VERIF_<SWITCH>=0|1 to override the five platform switches (thorough tier only); nothing is executed",
+                  "enable": "checks compile /repo/src units to LLVM IR with -DRWEATHER_SKINNY_C_VERIF -DSKINNY_VERIF_<SWITCH>=0|1 to override the five platform switches (quick tier: shipped build + a pairwise covering array of 6 configurations; thorough tier: all 32); nothing is executed",
                   "baseline_off_cmd": "make -C /repo clean all check",
                   "source_commits": commits, "add_only": True},
         "engines": [{"name": "sa", "path": "/verif/sa", "serves_properties": sorted(CHECKS),
-                     "kind_free_text": "custom static analyser: LLVM-14 API fact extractor (tools/irfacts.cc) + Python dataflow (pointer provenance, effect/guard summaries with return-class partition, vtable-resolved call graph, taint, definite initialisation, extents, bit routing)"}],
+                     "kind_free_text": "custom static analyser: LLVM-14 API helper specialiser (tools/irspec.cc) and fact extractor (tools/irfacts.cc) + Python analyses over the IR facts (pointer provenance, effect/guard summaries with return-class partition, vtable-resolved call graph, taint, definite initialisation, extents, lane colours, bit routing, GF(2) affine abstract interpretation of round functions and key-schedule loops, path-sensitive abstract interpretation of the CTR keystream protocol, linear arithmetic)"}],
         "checks": checks,
         "not_applicable": na,
         "notes": "Technique family: static analysis only; nothing of the library is executed. Exit 2 = analysis broken (anchor vanished / instance floor / fixture not flagged), never a verdict. Known findings: KNOWN_FINDINGS.txt.",
